@@ -555,8 +555,43 @@ Definition c_any (e : ex) : bool := existsb (fun c => snd c e) model_classes.
 (* a program outside every class: on these formatter.rs and the canonical printer agree (Proofs/FmtP.v) *)
 Definition defect_free (p : prog) : bool := negb (exists_prog c_any p).
 
+(* A defect below the token level: Formatter::tuple and Formatter::bracket join the elements with a bare ","; when an
+   element ends in a dot subscript `.a` and the next one begins with an identifier, the grammar's swizzle rule
+   (".", identifier, ",", identifier ...) reads `x.a,y` as one swizzled slice: `(x.a, y)` is printed `(x.a,y)`.
+   The token model keeps `.a` `,` `y` apart, so this class is recognised on the tree: *)
+Fixpoint ends_dot (e : ex) : bool :=
+  match e with
+  | ESlice _ subs => match List.last subs EAll with EDot _ => true | _ => false end
+  | ENeg e | ENot e => ends_dot e
+  | ETerm l r =>
+      (fix lastd (q : list (binop * ex)) : bool :=
+         match q with [] => false | [p] => ends_dot (snd p) | _ :: q' => lastd q' end) r
+  | ERange _ _ _ b => ends_dot b
+  | _ => false
+  end.
+
+Fixpoint starts_ident (e : ex) : bool :=
+  match e with
+  | EVar _ _ | ECall _ _ | ESlice _ _ | ELit (LBool _) _ => true
+  | ETrans e => starts_ident e
+  | ETerm l _ => starts_ident l
+  | ERange a _ _ _ => starts_ident a
+  | _ => false
+  end.
+
+Fixpoint adjacent_swizzle (es : list ex) : bool :=
+  match es with
+  | a :: ((b :: _) as r) => (ends_dot a && starts_ident b) || adjacent_swizzle r
+  | _ => false
+  end.
+
+Definition c_commaswizzle (e : ex) : bool :=
+  match e with ETup es | EBrk es => adjacent_swizzle es | _ => false end.
+
+Definition all_classes : list (string * (ex -> bool)) := model_classes ++ [("comma-swizzle", c_commaswizzle)].
+
 Definition class_of (p : prog) : option string :=
-  match filter (fun c => exists_prog (snd c) p) model_classes with
+  match filter (fun c => exists_prog (snd c) p) all_classes with
   | c :: _ => Some (fst c)
   | [] => None
   end.
@@ -791,6 +826,7 @@ Definition dec_obs8 (x : sx) : obs8 :=
   | Lx (Ax t :: rest) =>
       if String.eqb t "perr" then O8Skip
       else if String.eqb t "panic" then O8Skip
+      else if String.eqb t "hang" then O8Skip        (* the driver killed the harness: parsing the *source* did not end (C09) *)
       else if String.eqb t "fmt-panic" then
         match rest with [Lx (Ax _ :: fs)] => O8FmtPanic (words fs) | _ => O8Other end
       else if String.eqb t "fmt" then
@@ -826,12 +862,11 @@ Definition judge_prog (p : prog) (o : obs8) : sx :=
   | O8Fmt ob =>
       if existsb is_panic ti then v_bad "expected-format-panic" (Ax "fmt-panic")
       else if negb (String.eqb (o_text ob) (render ti)) then v_bad "text-differs-from-model" (Qx (render ti))
-      else if String.eqb (render ti) (render tc) then
-        (if all_good ob then v_ok "roundtrip" else v_bad "roundtrip-failed" (Qx (symptom ob)))
-      else if all_good ob then v_ok "roundtrip-other-text"
+      else if all_good ob then
+        (if String.eqb (render ti) (render tc) then v_ok "roundtrip" else v_ok "roundtrip-other-text")
       else match class_of p with
            | Some id => v_kf id
-           | None => v_bad "unclassified-defect" (Qx (render tc))
+           | None => v_bad "roundtrip-failed" (Qx (symptom ob))
            end
   end.
 
@@ -844,7 +879,33 @@ Definition diff_classes : list (string * list string * list string) :=
     ("range-increment-order", ["range-inc"], ["tree"; "idem"; "perr"]);
     ("strict-neq-spelling", ["StrictNotEqual"], ["perr"]);
     ("subset-spelling", ["Subset"; "Superset"], ["tree"; "idem"]);
-    ("cross-spelling", ["Cross"], ["tree"; "idem"]) ].
+    ("cross-spelling", ["Cross"], ["tree"; "idem"]);
+    ("comment-sigil", ["Comment"; "trailing-comment"], ["tree"; "idem"; "perr"]);
+    ("scientific-literal", ["Scientific"], ["perr"; "tree"]);
+    ("table-literal-bars", ["table-literal"], ["perr"; "tree"]);
+    ("kind-html-escape", ["kind-record"; "kind-table"], ["perr"]);
+    ("empty-map-as-set", ["empty-map"], ["tree"]);
+    ("tuple-struct-sigil", ["tuple-struct-value"], ["tree"; "perr"]);
+    ("swizzle-dots", ["Swizzle"], ["perr"; "tree"]);
+    ("string-escapes", ["str-special"], ["perr"; "tree"; "idem"]);
+    ("fsm-spec-layout", ["FsmSpecification"], ["perr"; "tree"]);
+    ("mika-html", ["Mika"], ["perr"; "tree"]);
+    ("md-fenced-mech-layout", ["FencedMechCode"], ["perr"; "tree"; "idem"]);
+    ("md-section-numbering", ["section-subtitle"; "Subtitle"], ["tree"; "idem"; "perr"]);
+    ("md-abstract-sigil", ["Abstract"], ["tree"; "idem"; "perr"]);
+    ("md-list-layout", ["List"], ["perr"; "tree"; "idem"]);
+    ("md-code-block-newline", ["CodeBlock"], ["tree"; "idem"; "perr"]);
+    ("md-callout-sigil", ["WarningBlock"; "ErrorBlock"; "SuccessBlock"], ["tree"; "idem"]);
+    ("md-table-cell-newline", ["md-table"], ["perr"; "tree"]);
+    ("md-image-caption-newline", ["Image"], ["perr"; "tree"]);
+    ("md-citation-html", ["Citation"], ["perr"; "tree"]);
+    ("md-equation-space", ["Equation"], ["tree"; "idem"]);
+    ("md-diagram-fence", ["Diagram"], ["perr"; "tree"]);
+    ("md-inline-mech-braces", ["InlineMechCode"], ["tree"; "idem"; "perr"]);
+    ("md-underline-sigil", ["Underline"], ["tree"; "idem"]);
+    ("md-raw-hyperlink", ["raw-hyperlink"], ["perr"; "tree"]);
+    ("md-figure-table", ["FigureTable"], ["perr"; "tree"]);
+    ("comma-swizzle", ["comma-swizzle"], ["tree"; "perr"]) ].
 
 Definition find_class (classes : list (string * list string * list string)) (feat : list string) (sym : string) : option string :=
   match filter (fun c => existsb (fun f => mem f feat) (snd (fst c)) && mem sym (snd c)) classes with
